@@ -216,6 +216,9 @@ def run_check(prop, tier, seed):
         nshards = min(nshards, oracle.MAX_SHARDS)
     tmp = tempfile.mkdtemp(prefix='vt_%s_' % prop, dir=scratch_base())
     env = dict(os.environ)
+    # the hash seed is not part of any input: the shards run under different
+    # ones (fixed per shard, so that a shard is reproducible)
+    vary_hash = 'PYTHONHASHSEED' not in env
     env.setdefault('PYTHONHASHSEED', '0')
     env['TREETOOLS_VERIF'] = '1'
     env['PYTHONPATH'] = HERE + os.pathsep + env.get('PYTHONPATH', '')
@@ -233,7 +236,9 @@ def run_check(prop, tier, seed):
         p = subprocess.Popen(
             [sys.executable, '-m', 'vt.runner', '--worker', prop, tier,
              str(seed), str(s), str(nshards), out, tmp],
-            cwd=HERE, env=env, stdout=log, stderr=subprocess.STDOUT)
+            cwd=HERE, env=dict(env, PYTHONHASHSEED=str(
+                (0, 1, 2, 3, 5, 8, 13, 21)[s % 8])) if vary_hash else env,
+            stdout=log, stderr=subprocess.STDOUT)
         procs.append((p, out, log))
     results = []
     inconclusive = []
